@@ -92,6 +92,18 @@ CHECKS = {
         text="0.5-0.9k (quick) / 30k (thorough) constraint twins plus 2.4-4.6k (quick) / 176k (thorough) structural twins; keys carry kind, value kind, origin and guard form.",
         note="Excluded per the statement: byte twins whose base64 length stays expressible, item-level tightenings by descendants; known finding: bytes minLength on base64 text.",
     ),
+    "C13": dict(
+        category="exploration",
+        technique="independent XSD 1.0 and 1.1 processors (xmlschema, xmllint as second opinion) over real schema.xsd files and SDK-written documents, plus differential pattern sampling Python re vs emitted xs:pattern, plus W3C escape-grammar scan",
+        text="Generated and corpus models through the real xsd target; the schema must build in both processors; every SDK document of an invariant-satisfying instance must validate; every sampled member string of a pattern must be accepted by the emitted facet.",
+        note="XML characters without line breaks; validator limits on escaped range starts are not judged; refusals count only for the pattern translation; known findings: \\xHH un-escaping before parsing, escapes XSD lacks, lazy quantifiers, diamonds.",
+    ),
+    "C14": dict(
+        category="exploration",
+        technique="single-violation twins of valid SDK-written XML documents (value twins recomputed from the meta-model by ast and confirmed by Python evaluation; structural twins unknown / misplaced / missing / duplicated element) under both XSD processors",
+        text="880-4 000 value twins and 1 000-3 400 structural twins (quick), ~89k and ~45k (thorough); twins must be invalid under XSD 1.0 and 1.1 validators.",
+        note="Expectations only for own-class and constrained-primitive forms len(self.p) <op> K, K <op> len(self.p), matches_x(self.p) with a same-property guard; descendants' tightenings, set and numeric invariants are excluded.",
+    ),
     "C15": dict(
         category="exploration",
         technique="differential runtime oracle: real infer_for_schema.infer_constraints_by_class on the real symbol table vs Python's own evaluation of each recognised invariant sub-expression on shadow values of every length / every literal; second monitor on tightening_steps; error-justification monitor",
